@@ -192,9 +192,9 @@ def _ucase(fn, v, L, G, shape=None, bounds=None, kw=1):
 
 
 def generate(tier, rng):
-  G = 64 if tier != 'thorough' else 256
+  G = 32 if tier != 'thorough' else 256
   cfg_cases = _cfg_cases(tier, rng) if tier != 'search' else []
-  n_rand = {'quick': 24, 'thorough': 200, 'search': 150}[tier]
+  n_rand = {'quick': 16, 'thorough': 200, 'search': 150}[tier]
   eighth = lambda n: [rng.randrange(-32, 33) / 8.0 for _ in range(n)]
   special = [
       [0.0], [2.5], [-1.0], [0.0, 0.0, 0.0], [1.5, 1.5, 1.5, 1.5], [0.0, 2.0, 2.0], [0.0, 1.0, 2.0], [1.0, 2.0, 3.0, 4.0, 5.0],
@@ -203,7 +203,7 @@ def generate(tier, rng):
   ]
   levels = [2, 3, 4, 5, 6, 7, 9, 10, 16, 17, 33, 100]
   for v in special:
-    for L in ([2, 3, 100] if tier == 'quick' else levels):
+    for L in ([3, 100] if tier == 'quick' else levels):
       yield _ucase('usq', v, L, G)
     yield _ucase('bsq', v, 2, G)
     if _tern_ok(v):
@@ -255,11 +255,13 @@ def generate(tier, rng):
   # wave 3: argument forms, boundary values, reuse, caller-owned data, dtypes, contexts, remaining entry points
   for sub in XSUBS:
     for agg in (['usq', 'rusq', 'drive', 'tern', 'usq_arith'] if sub in ('forms', 'boundary', 'reuse', 'owned') else
-                ['usq', 'rusq', 'drive', 'tern'] if sub == 'order' else [None]):
-      if tier == 'quick' and agg == 'usq_arith' and sub != 'boundary':
+                ['usq', 'rusq', 'drive', 'tern'] if sub in ('order', 'containers', 'fastpath') else [None]):
+      if tier == 'quick' and sub == 'containers' and agg != 'usq':
+        continue
+      if tier == 'quick' and agg == 'usq_arith':
         continue
       yield {'kind': 'X', 'sub': sub, 'agg': agg, 'L': rng.choice([2, 3, 5]), 'seed': rng.randrange(1, 2 ** 30),
-             'key': rng.choice([0, rng.randrange(2 ** 31)])}
+             'key': rng.choice([0, rng.randrange(2 ** 31)]), 'big': tier == 'thorough'}
   # aggregators
   combos = []
   for ai, agg in enumerate(AGGS):
@@ -271,7 +273,7 @@ def generate(tier, rng):
     keep = {}
     for agg, nc, nr in combos:
       keep.setdefault(agg, [])
-      if len(keep[agg]) < 5:
+      if len(keep[agg]) < 4:
         keep[agg].append((agg, nc, nr))
     combos = [c for a in AGGS for c in keep[a]]
     # make sure every client count and round count appears for every aggregator
@@ -298,6 +300,9 @@ def generate(tier, rng):
         ws[rng.randrange(nc)] = 1.0
       yield {'kind': 'A', 'agg': agg, 'L': rng.choice([2, 3, 4, 5, 17]), 'tree': rng.randrange(len(TREES)),
              'clients': nc, 'rounds': nr, 'weights': ws, 'seed': rng.randrange(1, 2 ** 30), 'key': rng.randrange(2 ** 31)}
+  for agg, tree in ([('usq', 0), ('rusq', 1), ('tern', 2), ('drive', 3)] if tier == 'quick' else
+                    [(a, t) for a in ('usq', 'rusq', 'tern', 'drive') for t in (0, 2, 3, 4, 6)]):
+    yield {'kind': 'Q', 'agg': agg, 'tree': tree, 'lo': 2, 'hi': 257, 'seed': rng.randrange(1, 2 ** 30), 'key': rng.randrange(2 ** 31)}
   for c in cfg_cases:
     yield c
 
@@ -502,7 +507,8 @@ def run_A(case):
 # --------------------------------------------------------------------------
 # wave 3 extras (oracle only): every check is a named boolean
 
-XSUBS = ['forms', 'boundary', 'reuse', 'owned', 'dtypes', 'contexts', 'entry', 'compose', 'order', 'magnitude', 'ulp']
+XSUBS = ['forms', 'boundary', 'reuse', 'owned', 'dtypes', 'contexts', 'entry', 'compose', 'order', 'magnitude', 'ulp',
+         'layout', 'containers', 'complex', 'fastpath', 'chunk']
 
 
 def _close(a, b, rtol=1e-5, atol=1e-6):
@@ -512,6 +518,23 @@ def _close(a, b, rtol=1e-5, atol=1e-6):
 
 def _flat(tree):
   return np.concatenate([np.asarray(l, np.float64).reshape(-1) for l in _leaves(tree)]) if _leaves(tree) else np.zeros(0)
+
+
+_CONTAINER_TYPES = {}
+
+
+def _container_types():
+  if not _CONTAINER_TYPES:
+    import collections
+    from fedjax.core import dataclasses as fdc
+    NT = collections.namedtuple('NT', ['w', 'b'])
+
+    @fdc.dataclass
+    class DC:
+      w: object
+      b: object
+    _CONTAINER_TYPES.update(NT=NT, DC=DC)
+  return _CONTAINER_TYPES['NT'], _CONTAINER_TYPES['DC']
 
 
 class _Counting:
@@ -848,6 +871,141 @@ def run_X(case):
     one = np.nextafter(np.float32(1), np.float32(0))                                               # largest draw < 1
     guard('largest-draw-keeps-max', lambda: _close(at(one, 'usq'), [0, 0, 2, 2, 4], 0, 0) and _close(atb(one), [0, 0, 4], 0, 0))
     guard('zero-draw-keeps-min', lambda: _close(at(0.0, 'usq'), [0, 2, 2, 4, 4], 0, 0) and _close(atb(0.0), [0, 4, 4], 0, 0))
+  elif sub == 'layout':
+    k = jax.random.PRNGKey(case['key'])
+    base = np.array([_nz(x) / 8.0 for x in lcg(32, case['seed'])], np.float32).reshape(4, 8)
+    wide = np.array([_nz(x) / 8.0 for x in lcg(64, case['seed'] + 1)], np.float32).reshape(4, 16)
+    ro = base.copy()
+    ro.setflags(write=False)
+    lay = {'fortran': np.asfortranarray(base), 'transposed': base.T, 'every-other-row': np.tile(base, (2, 1))[::2],
+           'negative-stride': base[::-1, ::-1], 'column-slice': wide[:, 3:11], 'read-only': ro, 'zero-d': np.float32(1.5),
+           'jax-transposed': jnp.asarray(base).T, 'jax-slice': jnp.asarray(wide)[:, 3:11]}
+    if not case.get('big'):
+      lay = {n_: lay[n_] for n_ in ('fortran', 'transposed', 'negative-stride', 'column-slice', 'read-only', 'zero-d')}
+    for nm, a in lay.items():
+      def f(a=a):
+        snap = np.array(a, copy=True)
+        c = np.array(np.asarray(a), dtype=np.float32, order='C')
+        ok = _close(cp.uniform_stochastic_quantize(a, 5, k), cp.uniform_stochastic_quantize(c, 5, k), 0, 0)
+        ok &= _close(cp.binary_stochastic_quantize(a, k), cp.binary_stochastic_quantize(c, k), 0, 0)
+        ok &= _close(cp.terngrad_quantize(a, k), cp.terngrad_quantize(c, k), 0, 0)
+        ok &= _close(cp.drive_pytree({'x': a})['x'], cp.drive_pytree({'x': c})['x'], 0, 0)
+        ok &= np.asarray(cp.uniform_stochastic_quantize(a, 5, k)).shape == c.shape
+        return ok and bool(np.array_equal(np.asarray(a), snap))
+      guard('quantizers-' + nm, f)
+    for agg in (('usq', 'rusq', 'drive', 'tern') if case.get('big') else ('rusq',)):
+      def g(agg=agg):
+        mkp = lambda conv: [(b'a', {'w': conv(np.asfortranarray(base)), 'v': conv(base.T)}, 1.0),
+                            (b'b', {'w': conv(wide[:, 3:11]), 'v': conv(base[::-1, ::-1].T)}, 2.0)]
+        a1 = _make_agg({**case, 'agg': agg})
+        o1, s1 = a1.apply(mkp(lambda z: z), a1.init())
+        a2 = _make_agg({**case, 'agg': agg})
+        o2, s2 = a2.apply(mkp(lambda z: np.array(z, dtype=np.float32, order='C')), a2.init())
+        return _close(_flat(o1), _flat(o2), 1e-6, 1e-6) and o1['w'].shape == (4, 8) and o1['v'].shape == (8, 4)
+      guard('aggregator-' + agg, g)
+  elif sub == 'containers':
+    import haiku as hk
+    NT, DC = _container_types()
+    k = jax.random.PRNGKey(case['key'])
+    mkv = lambda n, o: jnp.asarray(np.array([_nz(x) / 8.0 for x in lcg(n, case['seed'] + o)], np.float32))
+    def trees(o):
+      a, b3, c1 = mkv(5, o), mkv(3, o + 1).reshape(3, 1), mkv(1, o + 2)
+      return {'tuple': (a, b3), 'namedtuple': NT(a, b3), 'list': [a, [b3, c1]], 'none-subtree': {'a': a, 'b': None, 'c': (None, c1)},
+              'haiku-flatmap': hk.data_structures.to_immutable_dict({'m': {'w': a, 'b': c1}}), 'dataclass': DC(a, {'k': b3}),
+              'mixed': [NT(a, (b3,)), {'k': None, 'z': c1}, DC(c1, None)], 'tuple-of-tuples': ((a,), ((b3,), c1))}
+    names = list(trees(0)) if case.get('big') else ['namedtuple', 'none-subtree', 'dataclass', 'mixed', 'tuple-of-tuples']
+    for nm in names:
+      def f(nm=nm):
+        t1, t2 = trees(0)[nm], trees(10)[nm]
+        td = jax.tree_util.tree_structure(t1)
+        ag = mk()
+        with Spy() as spy, jax.disable_jit():
+          out, st = ag.apply([(b'a', t1, 1.0), (b'b', t2, 3.0)], ag.init())
+        finals = ([o for _, o in spy.inv] if spy.inv else [o for _, _, o in spy.quant])
+        ref = [(1.0 * np.asarray(x, np.float64) + 3.0 * np.asarray(y, np.float64)) / 4.0 for x, y in zip(finals[0], finals[1])]
+        return (jax.tree_util.tree_structure(out) == td and
+                all(np.asarray(o).shape == np.asarray(i).shape for o, i in zip(_leaves(out), _leaves(t1))) and
+                all(_close(o, r, 1e-4, 1e-5) for o, r in zip(_leaves(out), ref)))
+      guard(nm, f)
+    if case['agg'] == 'usq':
+      for nm, tr in [(n_, trees(0)[n_]) for n_ in names]:
+        guard('pytree-quantizers-' + nm, lambda tr=tr: all(
+            jax.tree_util.tree_structure(q) == jax.tree_util.tree_structure(tr) and
+            all(np.asarray(a).shape == np.asarray(b).shape for a, b in zip(_leaves(q), _leaves(tr)))
+            for q in (cp.uniform_stochastic_quantize_pytree(tr, 3, k), cp.terngrad_quantize_pytree(tr, k), cp.drive_pytree(tr))) and
+            cp.num_leaves(tr) == len(_leaves(tr)))
+  elif sub == 'complex':
+    k = jax.random.PRNGKey(case['key'])
+    xc = jnp.asarray((np.arange(8) + 1j * np.arange(8)[::-1]).astype(np.complex64))
+    # complex leaves are outside "vectors of reals": each quantizer must either reject them (TypeError) or return finite values
+    for nm, f in (('usq', lambda: cp.uniform_stochastic_quantize(xc, 3, k)), ('bsq', lambda: cp.binary_stochastic_quantize(xc, k)),
+                  ('tern', lambda: cp.terngrad_quantize(xc, k)), ('drive', lambda: cp.drive_pytree({'a': xc})['a'])):
+      def g(f=f):
+        try:
+          y = np.asarray(f())
+        except (TypeError, ValueError):
+          return True
+        return bool(np.all(np.isfinite(y)))
+      guard(nm + '-rejects-or-finite', g)
+  elif sub == 'fastpath':
+    # weight == 1, single client, single size-1 / scalar leaf, followed by a SECOND round
+    for nm, leaf in (('scalar', jnp.float32(1.5)), ('size-1', jnp.asarray([2.5], jnp.float32)), ('size-2', jnp.asarray([1.0, -3.0], jnp.float32))):
+      def f(leaf=leaf):
+        ag = mk()
+        st0 = ag.init()
+        with Spy() as spy, jax.disable_jit():
+          o1, s1 = ag.apply([(b'only', {'x': leaf}, 1.0)], st0)
+        fin1 = (spy.inv[0][1] if spy.inv else spy.quant[0][2])[0]
+        with Spy() as spy2, jax.disable_jit():
+          o2, s2 = ag.apply([(b'only', {'x': leaf * 2}, 1.0)], s1)
+        fin2 = (spy2.inv[0][1] if spy2.inv else spy2.quant[0][2])[0]
+        want1 = _bits_formula(case['agg'], case['L'], int(np.asarray(leaf).size), 1)
+        ok = _close(o1['x'], fin1, 1e-5, 1e-6) and _close(o2['x'], fin2, 1e-5, 1e-6) and np.asarray(o1['x']).shape == np.asarray(leaf).shape
+        ok &= not np.array_equal(np.asarray(s1.rng), np.asarray(st0.rng)) and not np.array_equal(np.asarray(s2.rng), np.asarray(s1.rng))
+        if want1 is not None:
+          ok &= abs(float(s1.num_bits) - want1) <= 1e-3 * (1 + want1) and abs(float(s2.num_bits) - 2 * want1) <= 2e-3 * (1 + want1)
+        if case['agg'] in ('usq', 'rusq') and np.asarray(leaf).size == 1:
+          ok &= _close(o1['x'], leaf, 1e-5, 1e-6)        # a size-1 leaf is constant: the uniform quantizers keep it
+        # the keys of the two rounds differ
+        ks = [kb for kb, _ in spy.uniform] + [kb for kb, _ in spy2.uniform] + [kb for kb, _, _ in spy.rot] + [kb for kb, _, _ in spy2.rot]
+        return ok and len(set(ks)) == len(ks)
+      guard('single-client-weight-1-' + nm + '-two-rounds', f)
+  elif sub == 'chunk':
+    # element counts / client counts at and around powers of two and multiples of 256 / 1000 / 1024
+    k = jax.random.PRNGKey(case['key'])
+    sizes = [255, 256, 257, 1000, 1023, 1024, 1025, 4095, 4096, 4097] if case.get('big') else [255, 257, 4097]
+    for n in sizes:
+      def f(n=n):
+        v = np.array([x / 8.0 for x in lcg(n, case['seed'])], np.float32)
+        L = 9
+        q = np.asarray(cp.uniform_stochastic_quantize(jnp.asarray(v), L, k), np.float64)
+        v64 = v.astype(np.float64)
+        vmin, vmax = v64.min(), v64.max()
+        step = (vmax - vmin) / (L - 1)
+        kq = (q - vmin) / step
+        on_grid = np.all(np.abs(kq - np.rint(kq)) <= 1e-4)
+        near = np.all(np.abs(q - v64) <= step * (1 + 1e-5))
+        t = np.asarray(cp.terngrad_quantize(jnp.asarray(v), k), np.float64)
+        sig = v64.std()
+        s_ = np.max(np.minimum(np.abs(v64), 2.5 * sig))
+        tern_ok = np.all(np.minimum(np.abs(t), np.abs(np.abs(t) - s_)) <= 1e-4 * s_)
+        d = np.asarray(cp.drive_pytree({'a': jnp.asarray(v)})['a'], np.float64)
+        drive_ok = _close(d, (np.sum(v64 * v64) / np.sum(np.abs(v64))) * np.sign(v64), 1e-4, 1e-6)
+        return bool(q.shape == (n,) and on_grid and near and tern_ok and drive_ok)
+      guard(f'elements-{n}', f)
+    for nc in ([255, 256, 257, 1000, 1025] if case.get('big') else [257]):
+      def g(nc=nc):
+        # on-grid client vectors (0, 1, 2 with L = 3, both ends present): quantisation is the identity, so the aggregate
+        # must be the exact weighted mean whatever the client count
+        rs = np.random.RandomState(case['seed'] % (2 ** 31))
+        vals = rs.randint(0, 3, size=(nc, 4)).astype(np.float32)
+        vals[:, 0], vals[:, 3] = 0.0, 2.0
+        ws = rs.randint(1, 4, size=nc).astype(np.float64)
+        ag = _make_agg({**case, 'agg': 'usq', 'L': 3})
+        out, st = ag.apply(((b'c%d' % i, {'w': jnp.asarray(vals[i])}, float(ws[i])) for i in range(nc)), ag.init())
+        ref = (ws[:, None] * vals.astype(np.float64)).sum(0) / ws.sum()
+        return _close(out['w'], ref, 1e-4, 1e-5) and abs(float(st.num_bits) - (math.log2(3) * 4 + 64)) <= 1e-2
+      guard(f'clients-{nc}', g)
   return {'checks': chk}
 
 
@@ -858,7 +1016,9 @@ CFGS = {'threefry-nonpartitionable': {'JAX_THREEFRY_PARTITIONABLE': '0'},
         'prng-rbg': {'JAX_DEFAULT_PRNG_IMPL': 'rbg'},
         'x64': {'JAX_ENABLE_X64': '1'},
         'rank-promotion-raise': {'JAX_NUMPY_RANK_PROMOTION': 'raise'},
-        'disable-jit': {'JAX_DISABLE_JIT': '1'}}
+        'disable-jit': {'JAX_DISABLE_JIT': '1'},
+        # determinism across interpreter processes: two workers with different PYTHONHASHSEED must observe the same bits
+        'hashseed': {'PYTHONHASHSEED': '101'}}
 _PROCS = {}
 
 
@@ -895,6 +1055,17 @@ def run_G(case):
   if not line:
     return {'ok': False, 'rc': p.returncode, 'n': 0, 'violations': [['worker-failed', f'no result (exit code {p.returncode})', None]]}
   r = json.loads(line[-1][len('CFGRESULT '):])
+  if case['cfg'] == 'hashseed':
+    import os
+    import subprocess
+    import sys
+    env = dict(os.environ, PYTHONHASHSEED='202')
+    worker = os.path.join(os.path.dirname(os.path.abspath(__file__)), 'c11_c18_cfg_worker.py')
+    p2 = subprocess.run([sys.executable, worker, PROP.lower(), str(case['seed'])], env=env, capture_output=True, text=True)
+    l2 = [l for l in p2.stdout.split('\n') if l.startswith('CFGRESULT ')]
+    d2 = json.loads(l2[-1][len('CFGRESULT '):])['digest'] if l2 else None
+    if d2 != r['digest']:
+      r['violations'].append(['not-reproducible-across-processes', f'observations differ between PYTHONHASHSEED=101 and 202 ({r["digest"][:10]} vs {str(d2)[:10]})', None])
   return {'ok': True, 'rc': p.returncode, 'n': r['n'], 'config': r['config'], 'violations': r['violations']}
 
 
@@ -907,8 +1078,48 @@ def json_short(c):
   return json.dumps({k: v for k, v in (c or {}).items() if k not in ('x', 'y', 'v')})[:200]
 
 
+# --------------------------------------------------------------------------
+# wave 5: exhaustive bit-formula grid (every level count 2..257), sent to Coq against the translated triples
+
+def _log2_exact(n):
+  """log2 by an independent route (decimal ln, 40 digits), exact for powers of two."""
+  import decimal
+  if n & (n - 1) == 0:
+    return float(n.bit_length() - 1)
+  with decimal.localcontext() as ctx:
+    ctx.prec = 40
+    return float(decimal.Decimal(n).ln() / decimal.Decimal(2).ln())
+
+
+def run_Q(case):
+  import jax.numpy as jnp
+  shapes = TREES[case['tree']]
+  P, nl = sum(int(np.prod(sh)) for sh in shapes), len(shapes)
+  leaves = [[_nz(v) / 8.0 for v in lcg(int(np.prod(sh)), case['seed'] + i)] for i, sh in enumerate(shapes)]
+  tree = _tree_of(shapes, leaves)
+  entries = []
+  for L in range(case['lo'], case['hi'] + 1):
+    ag = _make_agg({**case, 'L': L})
+    _, st = ag.apply([(b'a', tree, 1.0)], ag.init())
+    entries.append([L, float(st.num_bits)])
+    if case['agg'] in ('tern', 'drive'):
+      break                       # no level count: one entry
+  return {'P': P, 'nl': nl, 'entries': entries}
+
+
+def _oracle_Q(case, obs):
+  out = []
+  for L, bits in obs['entries']:
+    want = {'usq': lambda: _log2_exact(L) * obs['P'], 'rusq': lambda: _log2_exact(L) * obs['P'],
+            'tern': lambda: _log2_exact(3) * obs['P'], 'drive': lambda: float(obs['P'])}[case['agg']]() + 64 * obs['nl']
+    if not abs(bits - want) <= 2e-6 * want + 1e-4:
+      out.append(('grid.bits-formula', f'{case["agg"]} with {L} levels, {obs["P"]} parameters, {obs["nl"]} leaves: counter {bits}, '
+                  f'documented formula {want}'))
+  return out[:3]
+
+
 def run(case):
-  return {'G': run_G, 'X': run_X, 'U': run_U, 'D': run_D, 'A': run_A}[case['kind']](case)
+  return {'Q': run_Q, 'G': run_G, 'X': run_X, 'U': run_U, 'D': run_D, 'A': run_A}[case['kind']](case)
 
 
 # --------------------------------------------------------------------------
@@ -1199,7 +1410,7 @@ def _oracle_X(case, obs):
 
 
 def oracle(case, obs):
-  return {'G': _oracle_G, 'X': _oracle_X, 'U': _oracle_U, 'D': _oracle_D, 'A': _oracle_A}[case['kind']](case, obs)
+  return {'Q': _oracle_Q, 'G': _oracle_G, 'X': _oracle_X, 'U': _oracle_U, 'D': _oracle_D, 'A': _oracle_A}[case['kind']](case, obs)
 
 
 # --------------------------------------------------------------------------
@@ -1236,6 +1447,11 @@ def _encode(case, obs):
   kind = case['kind']
   if kind in ('X', 'G'):
     return None
+  if kind == 'Q':
+    kind_z = {'usq': 0, 'rusq': 1, 'tern': 2, 'drive': 3}[case['agg']]
+    l2 = lambda L: _log2_exact(L) if kind_z <= 1 else _log2_exact(3) if kind_z == 2 else 0.0
+    es = '[' + '; '.join(f'({L}%Z, {_q(b)}, {_q(l2(L))})' for L, b in obs['entries']) + ']'
+    return f'(CBits {kind_z} {obs["P"]} {obs["nl"]} {es}, OBits)'
   if kind == 'U':
     if not obs['finite'] or obs['n_out'] != len(obs['v']):
       return '(CD [], OD [0])'      # forced disagreement
@@ -1317,6 +1533,8 @@ def describe(case, obs):
             'vector': 'constant' if len(set(v)) == 1 else 'generic'}
   if case['kind'] == 'G':
     return {'kind': 'G.' + case['cfg'], 'inner_cases': obs.get('n')}
+  if case['kind'] == 'Q':
+    return {'kind': 'Q.bits.' + case['agg'], 'levels': len(obs['entries'])}
   if case['kind'] == 'X':
     return {'kind': 'X.' + case['sub'] + ('.' + case['agg'] if case.get('agg') else '')}
   if case['kind'] == 'A':
